@@ -456,6 +456,11 @@ class C07Models:
             return ex.st.decide(A.sparse)
         return False
 
+    def module_constant(self, ex, mi, name):
+        if name == "READ_ONLY_EMPTY_DICT" and _on(ex):
+            return ex.models.make_dict(ex, [], [])  # MappingProxyType({}): an empty mapping
+        return NotImplemented
+
     def class_constant(self, ex, ci, name):
         if name == "DerivationMode" and ci.qualname.endswith(("JacobianAssembly", "CoupledSystem")):
             return ClassV("gemseo.core.derivatives.derivation_modes.DerivationMode")
@@ -479,6 +484,9 @@ set_row = z3.Function("m_set_row", MatrixS, z3.IntSort(), MatrixS, MatrixS)
 ext_q = z3.Function("trg_matrix_equality", *_MM, z3.BoolSort())  # always-true trigger function: names a pair of matrices to compare
 diff_col = z3.Function("m_differing_col", *_MM, z3.IntSort())
 diff_row = z3.Function("m_differing_row", *_MM, z3.IntSort())
+
+
+mat_of = z3.Function("m_of_concrete_matrix", TMat.sort(), MatrixS)  # abstraction: the ring element a concrete real matrix stands for
 
 
 def msolve(a, b):
@@ -645,6 +653,30 @@ def _is_full_slice(k):
     return isinstance(k, tuple) and len(k) == 4 and k[0] == "slice" and k[1] is None and k[2] is None and k[3] is None
 
 
+class FactorizedV:
+    """The solver function returned by scipy.sparse.linalg.factorized(lhs)."""
+
+    def __init__(self, lhs):
+        self.lhs = lhs
+
+
+class _TNpFloat(T):
+    """A numpy.float64 scalar (norms, residual ratios): a real; its division never raises."""
+
+    name = "NpFloat64"
+
+    def sort(self):
+        return z3.RealSort()
+
+    def embed(self, st, v):
+        if isinstance(v, SV) and v.ty == self:
+            return v.term
+        raise Unsupported(f"cannot embed {v!r} as a numpy float")
+
+
+TNpFloat = _TNpFloat()
+
+
 class C07RingModels:
     """Operations on abstract matrices (contracts with ``c07 = "ring"``): shapes are tracked, entries are not."""
 
@@ -656,6 +688,15 @@ class C07RingModels:
             return NotImplemented
         if name == "numpy.dtype" and len(args) == 1 and isinstance(args[0], BuiltinV):
             return SV(z3.Const(f"np_dtype_{args[0].name.replace('.', '_')}", NPDTYPE), TDtype)
+        if name in ("scipy.sparse.csc_matrix", "scipy.sparse.csr_matrix") and len(args) == 1 and _ring(ex, args[0]) is not None:
+            return _rnew(ex, _ring(ex, args[0]).term)  # another storage format of the same matrix
+        if name == "scipy.sparse.linalg.factorized" and len(args) == 1 and _ring(ex, args[0]) is not None:
+            ex.assumed.add("assumed scipy contract: factorized(A) returns a function solving A x = b exactly (x = A^-1 b, invertible A)")
+            return FactorizedV(_ring(ex, args[0]).term)
+        if name == "numpy.linalg.norm" and len(args) == 1 and _ring(ex, args[0]) is not None:
+            r = ex.st.fresh_const("norm", z3.RealSort())
+            ex.st.assume(r >= 0)
+            return SV(r, TNpFloat)
         if name == "numpy.empty" and len(args) == 1 and isinstance(args[0], tuple) and len(args[0]) == 2 and all(ex.num(x) is not None for x in args[0]):
             from .engine import PyRaise
 
@@ -668,10 +709,17 @@ class C07RingModels:
         return NotImplemented
 
     def construct(self, ex, cv, args, kwargs, lineno):
-        if self._on(ex) and cv.qualname.endswith("linear_problem.LinearProblem") and len(args) == 1 and _ring(ex, args[0]) is not None:
+        if self._on(ex) and cv.qualname.endswith("linear_problem.LinearProblem") and len(args) in (1, 2) and not kwargs:
             from .values import PyObj
 
-            return ex.st.alloc(PyObj(cv.qualname, {"lhs": args[0], "rhs": None, "solution": None}))
+            lhs = args[0]
+            if _mat(ex, lhs) is not None:
+                # a concrete (assembled) matrix handed to the solver: the element of the ring it stands for
+                lhs = _rnew(ex, mat_of(TMat.embed(ex.st, lhs)))
+            if _ring(ex, lhs) is None or (len(args) == 2 and _ring(ex, args[1]) is None):
+                return NotImplemented
+            return ex.st.alloc(PyObj(cv.qualname, {"lhs": lhs, "rhs": args[1] if len(args) == 2 else None, "solution": None,
+                                                   "is_converged": SV(ex.st.fresh_const("is_converged", z3.BoolSort()), TBool)}))
         return NotImplemented
 
     def getitem(self, ex, cont, key, lineno):
@@ -777,6 +825,8 @@ class C07RingModels:
             ex.assumed.add("assumed linear-solver contract: LinearSolverLibraryFactory.execute(problem, ...) sets problem.solution to lhs^-1 rhs exactly "
                            "(invertible lhs, exact solve, for every algorithm and option) and leaves lhs / rhs unchanged")
             P.fields["solution"] = _rnew(ex, msolve(_ring(ex, P.fields["lhs"]).term, _ring(ex, P.fields["rhs"]).term))
+            if "is_converged" in P.fields:
+                P.fields["is_converged"] = SV(st.fresh_const("is_converged", z3.BoolSort()), TBool)
             return None
         if name in ("linop.matvec", "linop.rmatvec") and isinstance(recv, SV) and recv.ty == TOp and len(args) == 1 and _ring(ex, args[0]) is not None:
             ex.assumed.add("assumed scipy contract: for a LinearOperator denoting the matrix A, matvec(x) returns A x and rmatvec(x) returns A^H x "
@@ -789,11 +839,23 @@ class C07RingModels:
         if A is None:
             return NotImplemented
         name = name[5:]
-        if name in ("toarray", "todense", "copy") and not args:
-            return _rnew(ex, A.term)  # same matrix in another storage format
+        if name in ("toarray", "todense", "copy", "squeeze") and not args:
+            return _rnew(ex, A.term)  # same matrix in another storage format / a vector identified with the column it fills
         if name == "dot" and len(args) == 1 and _ring(ex, args[0]) is not None:
             return _rnew(ex, mmul(A.term, _ring(ex, args[0]).term))
         raise Unsupported(f"abstract matrix method {name}")
+
+    def call_opaque(self, ex, fv, args, kwargs, lineno):
+        if isinstance(fv, FactorizedV) and len(args) == 1 and _ring(ex, args[0]) is not None:
+            return _rnew(ex, msolve(fv.lhs, _ring(ex, args[0]).term))
+        return NotImplemented
+
+    def compare_any(self, ex, op, a, b, lineno):
+        if not any(isinstance(v, SV) and v.ty == TNpFloat for v in (a, b)) or op not in ("Lt", "LtE", "Gt", "GtE"):
+            return NotImplemented
+        ta, tb = (v.term if isinstance(v, SV) else ex.num(v)[0] for v in (a, b))
+        ta, tb = (z3.ToReal(t) if t.sort() == z3.IntSort() else t for t in (ta, tb))
+        return SV({"Lt": ta < tb, "LtE": ta <= tb, "Gt": ta > tb, "GtE": ta >= tb}[op], TBool)
 
     def havoc_obj(self, ex, ref, o, hint):
         if not isinstance(o, RingObj):
@@ -840,6 +902,9 @@ class C07RingModels:
         return None
 
     def binop(self, ex, op, a, b, lineno, inplace=False):
+        if op == "Div" and any(isinstance(v, SV) and v.ty == TNpFloat for v in (a, b)):
+            # numpy.float64 division never raises (x / 0 is inf or nan with a warning): an unspecified value
+            return SV(ex.st.fresh_const("npdiv", z3.RealSort()), TNpFloat)
         o = self._operator_obj(ex, a)
         if o is not None and op in ("Add", "Sub", "MatMult"):
             # Python's binary-operator protocol: type(a).__op__(a, b) (defined in the repository for the Jacobian operators)
@@ -858,3 +923,76 @@ class C07RingModels:
         if op == "MatMult":
             return _rnew(ex, mmul(A.term, B.term))
         raise Unsupported(f"operator {op} on abstract matrices")
+
+
+# =========================================================================== Part 4: the cache of the minimal couplings (contracts with c07 = "cache")
+NAME_SET = z3.ArraySort(TStr.sort(), z3.BoolSort())
+_NAME_LIST = TList(TStr)
+names_set = z3.Function("c07_names_set", _NAME_LIST.sort(), NAME_SET)  # the set of the elements of a list of names (set(list))
+traverse_names = z3.Function("c07_traverse_names", z3.IntSort(), NAME_SET, NAME_SET, NAME_SET)  # names selected by traverse_add_diff_io_mda
+
+
+class TraversalV:
+    """The (opaque) mapping returned by traverse_add_diff_io_mda: only the set of all the names it lists is modelled."""
+
+    def __init__(self, names):
+        self.names = names
+
+
+class C07CacheModels:
+    def _on(self, ex):
+        return getattr(ex.contract, "c07", None) == "cache"
+
+    def call_builtin(self, ex, name, args, kwargs, lineno, node=None):
+        if not (self._on(ex) and name == "set" and len(args) == 1 and isinstance(args[0], Ref)):
+            return NotImplemented
+        st = ex.st
+        L = st.heap.get(args[0].id)
+        if not isinstance(L, ListObj) or L.is_empty_literal or L.t != TStr:
+            return NotImplemented
+        from .values import SetObj
+
+        member = getattr(L, "c07_member", None)
+        if member is None:
+            member = names_set(_NAME_LIST.dt.mk(L.n, L.elems))  # set(list): a function of the list (its definition is not needed by the cache contract)
+        o = SetObj(TStr, member, st.fresh_int("setn"))
+        o.ty = None
+        for f in o.wf_facts(st):
+            st.assume(f)
+        return st.alloc(o)
+
+    def call_repo_model(self, ex, fi, args, kwargs, lineno):
+        if not (self._on(ex) and fi.qualname.endswith("mda_derivatives.traverse_add_diff_io_mda") and len(args) == 3):
+            return NotImplemented
+        from .values import PyObj
+
+        st = ex.st
+        cs = st.heap.get(args[0].id) if isinstance(args[0], Ref) else None
+        if not isinstance(cs, PyObj) or "c07_identity" not in cs.fields:
+            raise Unsupported("traverse_add_diff_io_mda on a coupling structure without the ghost identity field")
+        sets = []
+        for a in args[1:]:
+            L = st.heap.get(a.id) if isinstance(a, Ref) else None
+            if not isinstance(L, ListObj) or L.is_empty_literal or L.t != TStr:
+                raise Unsupported("traverse_add_diff_io_mda on something else than lists of names")
+            sets.append(names_set(_NAME_LIST.dt.mk(L.n, L.elems)))
+        ex.assumed.add("assumed (graph traversal, C09): the names selected by traverse_add_diff_io_mda depend only on the coupling structure and on the SETS "
+                       "of requested inputs / outputs; its effect on the disciplines' differentiated inputs / outputs is not modelled here")
+        return TraversalV(traverse_names(cs.fields["c07_identity"].term, sets[0], sets[1]))
+
+    def comprehension(self, ex, node, kind):
+        if not (self._on(ex) and kind == "list" and len(node.generators) == 2):
+            return NotImplemented
+        g0 = node.generators[0]
+        # [name for ios in mapping.values() for name in list(ios[0]) + list(ios[1])]: all the names listed by the traversal result
+        if not (isinstance(g0.iter, ast.Call) and isinstance(g0.iter.func, ast.Attribute) and g0.iter.func.attr == "values"):
+            return NotImplemented
+        src = ex.ev(g0.iter.func.value)
+        if not isinstance(src, TraversalV):
+            return NotImplemented
+        st = ex.st
+        o = ListObj(TStr, st.fresh_int("ncpl"), st.fresh_const("cpl", z3.ArraySort(z3.IntSort(), TStr.sort())))
+        st.assume(o.n >= 0)
+        o.ty = _NAME_LIST
+        o.c07_member = src.names
+        return st.alloc(o)
